@@ -74,6 +74,13 @@ def may_raise(node: ast.AST) -> bool:
             return False
     if isinstance(node, ast.Expr) and isinstance(node.value, ast.Constant):
         return False
+    if isinstance(node, ast.Expr) and isinstance(node.value, ast.Call):
+        f = node.value.func
+        # logger.debug("fmt", name, ...) with plain names / constants as arguments evaluates nothing that can fail
+        if isinstance(f, ast.Attribute) and f.attr in ("debug", "info", "warning", "error", "critical", "exception") \
+                and isinstance(f.value, ast.Name) and f.value.id.lower().endswith("logger") \
+                and all(isinstance(a, (ast.Name, ast.Constant)) for a in node.value.args) and not node.value.keywords:
+            return False
     for n in ast.walk(node):
         if isinstance(n, (ast.Call, ast.Subscript, ast.Attribute, ast.BinOp, ast.Compare, ast.Assert,
                           ast.Raise, ast.UnaryOp, ast.Await, ast.Starred)):
